@@ -2,7 +2,7 @@
   Model of network.rs (`Network`, `NetworkBottleneck`, `WindowCount`, `sim_network_stack`)
   and delay.rs (the three aggregate-delay heuristics).  Durations are `Nat` nanoseconds with
   the `std::time::Duration` ceiling `durMax`; `Instant - Instant` and `duration_since` saturate
-  (`durSince`), `Duration * u32`, `Duration / u32` and `+=` are checked.
+  (`dsince`), `Duration * u32`, `Duration / u32` and `+=` are checked.
 -/
 import MbVerif.Sim.Event
 
@@ -26,7 +26,7 @@ structure WindowCount where
 /-- the pruning loop: drop from the front while `now - oldest > window` -/
 def WindowCount.prune (window : Nat) (now : Int) : List Int → List Int
   | [] => []
-  | o :: r => if durSince now o > window then WindowCount.prune window now r else o :: r
+  | o :: r => if dsince now o > window then WindowCount.prune window now r else o :: r
 
 /-- `WindowCount::add`: returns the count -/
 def WindowCount.add (w : WindowCount) (now : Int) : Nat × WindowCount :=
@@ -91,7 +91,7 @@ def sample (b : Bottleneck) (now : Int) (isClient : Bool) : Except SimFault ((Na
 
 def peekAggregateDelay (b : Bottleneck) (now : Int) : Nat :=
   match b.aggQueue.peek with
-  | some d => durSince d.time now
+  | some d => dsince d.time now
   | none => durMax
 
 /-- `push_aggregate_delay` -/
@@ -134,29 +134,29 @@ def aggDelayOnBlockingExpire (sq : SimQueue) (isClient : Bool) (expire : Int) (h
   let tail :=
     if bufferSize > 2 then
       (q.blocking.toList ++ q.bypassable.toList).foldl
-        (fun tail e => if durSince e.time head.time ≤ 1 * msec && e.time > tail then e.time else tail) head.time
+        (fun tail e => if dsince e.time head.time ≤ 1 * msec && e.time > tail then e.time else tail) head.time
     else head.time
   if expire = tail then none else
   match q.base.peek with
   | some base =>
-    if durSince (base.time + aggBase) head.time ≤ 1 * msec then none else some (durSince expire tail)
-  | none => some (durSince expire tail)
+    if dsince (base.time + aggBase) head.time ≤ 1 * msec then none else some (dsince expire tail)
+  | none => some (dsince expire tail)
 
 /-- `agg_delay_on_padding_bypass_replace` -/
 def aggDelayOnPaddingBypassReplace (sq : SimQueue) (isClient : Bool) (now : Int) (head : SimEvent) (aggBase : Nat) : Option Nat :=
   let q := sq.side isClient
-  if (q.blocking.toList ++ q.bypassable.toList).any (fun e => durSince e.time head.time ≤ 100 * msec) then none else
+  if (q.blocking.toList ++ q.bypassable.toList).any (fun e => dsince e.time head.time ≤ 100 * msec) then none else
   match q.base.peek with
   | some base =>
-    if durSince (base.time + aggBase) head.time ≤ 1 * msec then none else some (durSince now head.time)
-  | none => some (durSince now head.time)
+    if dsince (base.time + aggBase) head.time ≤ 1 * msec then none else some (dsince now head.time)
+  | none => some (dsince now head.time)
 
 /-- `should_delayed_packet_prop_agg_delay` -/
 def shouldDelayedPacketPropAggDelay (sq : SimQueue) (isClient : Bool) (pkt : SimEvent) (aggBase : Nat) : Bool :=
   let q := sq.side isClient
-  if (q.blocking.toList ++ q.bypassable.toList).any (fun e => durSince e.time pkt.time ≤ 100 * msec) then false else
+  if (q.blocking.toList ++ q.bypassable.toList).any (fun e => dsince e.time pkt.time ≤ 100 * msec) then false else
   match q.base.peek with
-  | some base => !(durSince (base.time + aggBase) pkt.time ≤ 1 * msec)
+  | some base => !(dsince (base.time + aggBase) pkt.time ≤ 1 * msec)
   | none => true
 
 /-! ### sim_network_stack -/
